@@ -64,7 +64,7 @@ CONSTANTS
   Gates,       \* replay: a global callback may block until released (ReleaseGate)
   Prio,        \* replay: environment steps only when no internal step is enabled
   Spill,       \* bufio overflow
-  Weak_FlushDoesNotWaitForCallbacks,  \* *Sync waits for its own ReqRes instead of the flush's
+  Weak_FlushDoesNotWaitForCallbacks,  \* didRecvResponse hands the callbacks to a dispatcher goroutine instead of running them
   Weak_ResponseMatchedByTypeOnly,     \* didRecvResponse takes the first reqSent entry of the response's type
   Weak_NoTypeCheck,                   \* resMatchesReq always true
   Weak_CallbackSetAfterDoneLost,      \* SetCallback after InvokeCallback only stores the callback
@@ -97,13 +97,14 @@ VARIABLES
   timerSet, ntimer, nfault, ncalls,
   th,        \* caller goroutines: [pc, kind, r, f, call]
   gated,     \* ReqRes whose global callback blocks until released
+  cbq,       \* (Weak_FlushDoesNotWaitForCallbacks only) callbacks handed to a dispatcher goroutine
   ustopped,  \* the owner has called Stop()
   panicked,  \* Done() was called twice on one ReqRes: "sync: negative WaitGroup counter", the process dies
   h,         \* ghost history
   act
 vars == <<reqs, queue, sent, sendpc, wbuf, c2s, pend, sbuf, app, s2c, rbuf, srvClosed, recvpc, mtx, done, resp,
           cbset, cbinv, cbret, err, stopped, stoppc, stopby, quit, connClosed, timerSet, ntimer, nfault,
-          ncalls, th, gated, ustopped, panicked, h, act>>
+          ncalls, th, gated, cbq, ustopped, panicked, h, act>>
 
 NoResp == [k |-> "none", typ |-> "-", for |-> 0, part |-> FALSE]
 Res(typ, r) == [k |-> "res", typ |-> typ, for |-> r, part |-> FALSE]
@@ -131,8 +132,9 @@ Init ==
   /\ err = "nil" /\ stopped = FALSE /\ stoppc = "none" /\ stopby = "-" /\ quit = FALSE /\ connClosed = FALSE
   /\ timerSet = FALSE /\ ntimer = 0 /\ nfault = 0 /\ ncalls = 0
   /\ th = [t \in Threads |-> Idle]
-  /\ gated = {} /\ ustopped = FALSE /\ panicked = FALSE
-  /\ h = [issued |-> << >>, matched |-> << >>, cblog |-> << >>, rets |-> << >>, faultHit |-> FALSE, lied |-> FALSE]
+  /\ gated = {} /\ cbq = << >> /\ ustopped = FALSE /\ panicked = FALSE
+  /\ h = [issued |-> << >>, matched |-> << >>, cblog |-> << >>, rets |-> << >>, faultHit |-> FALSE, lied |-> FALSE,
+          flushrbuf |-> 0, ustopgate |-> FALSE]
   /\ act = A0("Init")
 
 HasCb(k, r) == \E i \in DOMAIN h.cblog : h.cblog[i].k = k /\ h.cblog[i].r = r
@@ -165,7 +167,8 @@ StopBegin(X) ==
 \* Stop() by the owner (no error is recorded)
 UStop ==
   /\ UserStop /\ ~ustopped
-  /\ ustopped' = TRUE /\ UNCHANGED <<h, rbuf, panicked>>
+  /\ ustopped' = TRUE /\ UNCHANGED <<rbuf, panicked, cbq>>
+  /\ h' = [h EXCEPT !.ustopgate = (recvpc.pc = "gcb" /\ recvpc.r \in gated)]
   /\ IF stopped THEN UNCHANGED <<stopped, stoppc, stopby>>
                 ELSE stopped' = TRUE /\ stoppc' = "close" /\ stopby' = "user"
   /\ act' = A0("UStop")
@@ -177,7 +180,8 @@ UStop ==
 StopClose ==
   /\ stoppc = "close"
   /\ s2c' = <<Item("eof")>>
-  /\ connClosed' = TRUE /\ c2s' = << >> /\ srvClosed' = TRUE
+  /\ connClosed' = TRUE /\ srvClosed' = TRUE
+  /\ c2s' = IF Server = "raw" THEN c2s ELSE << >>     \* frames the scripted peer has already read stay with it
   /\ stoppc' = "flush"
   /\ act' = A0("StopClose")
   /\ UNCHANGED <<ucClient, queue, sent, sendpc, pend, sbuf, app, recvpc, mtx, done, resp, ucCb, err, stopped,
@@ -189,7 +193,8 @@ StopFlush ==
   /\ LET rel == IF Weak_ErrorLeavesPendingBlocked THEN {} ELSE AbRange(sent) \cup AbRange(queue)
          d2  == AbBump(done, rel)
      IN /\ done' = d2
-        /\ panicked' = (\E i \in DOMAIN d2 : d2[i] > 1) /\ UNCHANGED <<h, rbuf, ustopped>>
+        /\ panicked' = (\E i \in DOMAIN d2 : d2[i] > 1) /\ UNCHANGED <<rbuf, ustopped, cbq>>
+        /\ h' = [h EXCEPT !.flushrbuf = Len(rbuf)]
   /\ queue' = IF Weak_ErrorLeavesPendingBlocked THEN queue ELSE << >>
   /\ sent' = IF Weak_FlushQueueKeepsSent \/ Weak_ErrorLeavesPendingBlocked THEN sent ELSE << >>
   /\ stoppc' = "quit"
@@ -223,7 +228,7 @@ StartCall(t, kind, gate) ==
 \* queueRequest: cli.reqQueue <- reqres ; flushTimer.Set()/Unset()       (Dev_TimerAtomic)
 \* as-is: the send blocks while the queue is full, whoever is (not) reading it.
 \* repaired: select { case reqQueue <- r: ; case <-Quit(): r.Done() } and, after a successful
-\* send on a stopped client, the caller runs flushQueue itself (pc "drain").
+\* send on a stopped client, the caller drains the queue itself (pc "drain").
 CanEnq == Len(queue) < QCap \/ ((~Weak_DeadQueueBlocks) /\ quit)
 EnqEffect(typ, by, call, async) ==
   LET n == Len(reqs) + 1
@@ -263,15 +268,16 @@ EnqF(t) ==
   /\ act' = [name |-> "EnqF", t |-> t, r |-> n]
   /\ UNCHANGED <<wbuf, ntimer, sent, sendpc, c2s, ucSrv, s2c, recvpc, mtx, ucCb, ucStop, ucCount>>
 
-\* repaired queueRequest on a stopped client: flushQueue() by the caller
+\* repaired queueRequest on a stopped client: the caller drains reqQueue itself (channel
+\* receives only - no mutex, so it cannot deadlock with a callback that makes a call)
 Drain(t) ==
-  /\ th[t].pc = "drain" /\ mtx = "free"
-  /\ done' = AbBump(done, AbRange(sent) \cup AbRange(queue))
-  /\ panicked' = (\E i \in AbRange(sent) \cup AbRange(queue) : done[i] >= 1) /\ UNCHANGED <<h, rbuf, ustopped>>
-  /\ queue' = << >> /\ sent' = << >>
+  /\ th[t].pc = "drain"
+  /\ done' = AbBump(done, AbRange(queue))
+  /\ panicked' = (\E i \in AbRange(queue) : done[i] >= 1) /\ UNCHANGED <<h, rbuf, ustopped, cbq>>
+  /\ queue' = << >>
   /\ th' = IF AfterEnq(t) = "idle" THEN [th EXCEPT ![t] = Idle] ELSE [th EXCEPT ![t].pc = AfterEnq(t)]
   /\ act' = [name |-> "Drain", t |-> t]
-  /\ UNCHANGED <<ucClient, sendpc, c2s, ucSrv, s2c, recvpc, mtx, resp, ucCb, ucStop, ucCount>>
+  /\ UNCHANGED <<ucClient, sent, sendpc, c2s, ucSrv, s2c, recvpc, mtx, resp, ucCb, ucStop, ucCount>>
 
 \* everything issued before request f has been handled and its callbacks have run
 Before(f) == {h.issued[i] : i \in 1..(IF AbIn(h.issued, f) THEN AbPos(h.issued, f) - 1 ELSE 0)}
@@ -294,7 +300,7 @@ Chk(t) ==
 
 \* reqRes.Wait() returned; return cli.Error() / (reqres.Response, cli.Error())
 Fin(t) ==
-  LET w == IF Weak_FlushDoesNotWaitForCallbacks /\ th[t].r # 0 THEN th[t].r ELSE th[t].f
+  LET w == th[t].f
       e == IF err = "nil" THEN "nil" ELSE "err"
       got == IF th[t].r # 0 THEN resp[th[t].r].for ELSE 0 IN
   /\ th[t].pc = "wait" /\ done[w] >= 1 /\ mtx = "free"   \* cli.Error() takes cli.mtx
@@ -399,7 +405,7 @@ RecvRead ==
                 ELSE recvpc' = [recvpc EXCEPT !.pc = "stop", !.e = "exception"]
         ELSE recvpc' = [recvpc EXCEPT !.pc = "did", !.x = x] /\ UNCHANGED h
   /\ act' = A0("RecvRead")
-  /\ UNCHANGED <<ustopped, panicked>>
+  /\ UNCHANGED <<ustopped, panicked, cbq>>
   /\ UNCHANGED <<ucClient, queue, sent, sendpc, c2s, ucSrv, mtx, done, resp, ucCb, ucStop, ucCount, th>>
 
 MatchIdx(x) ==
@@ -416,18 +422,19 @@ RecvDid ==
      IF sent = << >>
        THEN /\ recvpc' = [recvpc EXCEPT !.pc = "stop", !.e = "unsolicited"]
             /\ h' = [h EXCEPT !.faultHit = TRUE]
-            /\ UNCHANGED <<sent, resp, done, mtx, panicked>>
+            /\ UNCHANGED <<sent, resp, done, mtx, panicked, cbq>>
        ELSE LET i == MatchIdx(x)
                 r == sent[i] IN
             IF reqs[r].typ # x.typ /\ ~Weak_NoTypeCheck
               THEN /\ recvpc' = [recvpc EXCEPT !.pc = "stop", !.e = "wrongtype"]
                    /\ h' = [h EXCEPT !.faultHit = TRUE]
-                   /\ UNCHANGED <<sent, resp, done, mtx, panicked>>
+                   /\ UNCHANGED <<sent, resp, done, mtx, panicked, cbq>>
               ELSE /\ resp' = [resp EXCEPT ![r] = x]
                    /\ done' = AbBump(done, {r})
                    /\ sent' = AbRemove(sent, i)
-                   /\ mtx' = "recv"
-                   /\ recvpc' = [recvpc EXCEPT !.pc = "gcb", !.r = r]
+                   /\ IF Weak_FlushDoesNotWaitForCallbacks
+                        THEN mtx' = mtx /\ recvpc' = [recvpc EXCEPT !.pc = "read"] /\ cbq' = Append(cbq, [r |-> r, x |-> x])
+                        ELSE mtx' = "recv" /\ recvpc' = [recvpc EXCEPT !.pc = "gcb", !.r = r] /\ cbq' = cbq
                    /\ h' = [h EXCEPT !.matched = Append(@, r), !.lied = @ \/ x.for # r]
                    /\ panicked' = (done[r] >= 1)
   /\ act' = A0("RecvDid")
@@ -454,12 +461,27 @@ RecvRcb ==
   /\ act' = A0("RecvRcb")
   /\ UNCHANGED <<ucClient, queue, sent, sendpc, c2s, ucSrv, s2c, done, resp, cbset, cbret, gated, ucStop, ucCount, th>>
 
+GatedNow == IF recvpc.pc = "gcb" /\ recvpc.r \in gated THEN recvpc.r
+            ELSE IF cbq # << >> /\ Head(cbq).r \in gated THEN Head(cbq).r ELSE 0
 ReleaseGate ==
-  /\ recvpc.pc = "gcb" /\ recvpc.r \in gated
-  /\ gated' = gated \ {recvpc.r}
-  /\ act' = [name |-> "ReleaseGate", r |-> recvpc.r]
+  /\ GatedNow # 0
+  /\ gated' = gated \ {GatedNow}
+  /\ act' = [name |-> "ReleaseGate", r |-> GatedNow]
   /\ UNCHANGED <<ucClient, queue, sent, sendpc, c2s, ucSrv, s2c, recvpc, mtx, done, resp, cbset, cbinv, cbret,
                  ucStop, ucCount, th, h>>
+
+\* Weak_FlushDoesNotWaitForCallbacks: a dispatcher goroutine runs the callbacks, in order, outside cli.mtx
+CbDispatch ==
+  /\ cbq # << >> /\ Head(cbq).r \notin gated
+  /\ LET r == Head(cbq).r
+         x == Head(cbq).x
+         g1 == Append(h.cblog, [k |-> "g", r |-> r, for |-> x.for, by |-> "recv"]) IN
+     h' = [h EXCEPT !.cblog = IF r \in cbset THEN Append(g1, [k |-> "r", r |-> r, for |-> x.for, by |-> "recv"]) ELSE g1]
+  /\ cbinv' = cbinv \cup {Head(cbq).r}
+  /\ cbq' = Tail(cbq)
+  /\ act' = A0("CbDispatch")
+  /\ UNCHANGED <<ucClient, queue, sent, sendpc, c2s, ucSrv, s2c, rbuf, recvpc, mtx, done, resp, cbset, cbret, gated,
+                 ucStop, ucCount, th, ustopped, panicked>>
 
 \* ------------------------------------------------------------------ honest server (abci/server)   (Dev_ServerAtomic)
 SrvHandle ==
@@ -525,17 +547,17 @@ Fault(f, ty) ==
        [] f = "garbage" ->     \* bytes that do not decode
             /\ ~LastPartial /\ s2c' = Append(s2c, Item("bad")) /\ UNCHANGED <<pend, srvClosed, c2s>>
        [] f = "close" ->       \* the peer closes the socket
-            /\ ~LastPartial /\ s2c' = Append(s2c, Item("eof")) /\ srvClosed' = TRUE /\ c2s' = << >> /\ UNCHANGED pend
+            /\ ~LastPartial /\ s2c' = Append(s2c, Item("eof")) /\ srvClosed' = TRUE /\ UNCHANGED <<pend, c2s>>
        [] f = "halfclose" ->   \* the peer shuts down its sending side only
             /\ ~LastPartial /\ s2c' = Append(s2c, Item("eof")) /\ UNCHANGED <<pend, srvClosed, c2s>>
        [] f = "midframe" ->    \* closed in the middle of a frame
-            /\ LastPartial /\ s2c' = [s2c EXCEPT ![Len(s2c)] = Item("eof")] /\ srvClosed' = TRUE /\ c2s' = << >>
-            /\ UNCHANGED pend
+            /\ LastPartial /\ s2c' = [s2c EXCEPT ![Len(s2c)] = Item("eof")] /\ srvClosed' = TRUE
+            /\ UNCHANGED <<pend, c2s>>
   /\ act' = [name |-> "Fault", f |-> f, ty |-> ty]
   /\ UNCHANGED <<ucRaw, app>>
 
 \* ------------------------------------------------------------------ next-state relation
-ucGhost == <<rbuf, ustopped, panicked>>
+ucGhost == <<rbuf, ustopped, panicked, cbq>>
 InternalPlain ==
   \/ \E t \in Threads : Enq(t) \/ EnqF(t) \/ Chk(t) \/ Fin(t)
   \/ SendDequeue \/ SendTrack \/ SendWrite \/ SendSpill \/ SendQuit
@@ -544,7 +566,7 @@ InternalPlain ==
   \/ SrvHandle
 Internal ==
   \/ InternalPlain /\ UNCHANGED ucGhost
-  \/ RecvRead \/ RecvDid \/ StopFlush
+  \/ RecvRead \/ RecvDid \/ StopFlush \/ CbDispatch
   \/ \E t \in Threads : Drain(t)
 
 EnvPlain ==
@@ -566,7 +588,7 @@ Spec == Init /\ [][Next]_vars
 \* ------------------------------------------------------------------ observable projection (harness Obs lines)
 Label(r) == IF reqs[r].typ = "F" THEN "F" ELSE "c" \o ToString(reqs[r].call)
 Labels(q) == [i \in DOMAIN q |-> Label(q[i])]
-GateActive == recvpc.pc = "gcb" /\ recvpc.r \in gated
+GateActive == GatedNow # 0
 Proj == [busy      |-> {t \in Threads : th[t].pc # "idle"},
          qlen      |-> Len(queue),
          sent      |-> Labels(sent),
@@ -575,7 +597,7 @@ Proj == [busy      |-> {t \in Threads : th[t].pc # "idle"},
          running   |-> ~stopped,
          quit      |-> quit,
          err       |-> IF err = "nil" THEN "nil" ELSE "err",
-         gate      |-> IF GateActive THEN Label(recvpc.r) ELSE "",
+         gate      |-> IF GateActive THEN Label(GatedNow) ELSE "",
          ncbS      |-> Len(h.cblog) + (IF GateActive THEN 1 ELSE 0),
          ncbE      |-> Len(h.cblog),
          got       |-> {Label(r) : r \in {q \in DOMAIN reqs : reqs[q].async /\ reqs[q].typ # "F" /\ resp[q] # NoResp}},
@@ -616,9 +638,14 @@ CallbackOrder == CbOnce /\ CbInOrder /\ CbNotLost /\ CbOwn
 
 \* (4) ErrorIsTerminal
 NoPanic == ~panicked
+\* corridor for schedule synthesis: the double Done() with at least two responses still buffered when
+\* flushQueue ran (then the mutex hand-over of the Go runtime makes the real code follow the schedule)
+NoPanicDeep == ~(panicked /\ h.flushrbuf >= 2)
+\* ... and Stop() called while the recv routine is inside a callback (flushQueue then queues on cli.mtx)
+NoPanicDeepStop == ~(panicked /\ h.flushrbuf >= 2 /\ h.ustopgate)
 DoneOnce == \A r \in DOMAIN done : done[r] <= 1
 Settled == stoppc = "done" /\ sendpc.pc = "exit" /\ recvpc.pc = "exit"
-Stuck(t) == \/ th[t].pc = "wait" /\ done[IF Weak_FlushDoesNotWaitForCallbacks /\ th[t].r # 0 THEN th[t].r ELSE th[t].f] = 0
+Stuck(t) == \/ th[t].pc = "wait" /\ done[th[t].f] = 0
             \/ th[t].pc \in {"enq", "enqf"} /\ ~CanEnq
 NoStuckCaller == Settled => \A t \in Threads : ~Stuck(t)
 NoStuckWaiter == Settled => \A t \in Threads : ~(Stuck(t) /\ th[t].pc = "wait")
@@ -636,5 +663,5 @@ ErrorIsTerminal == NoPanic /\ DoneOnce /\ NoStuckCaller /\ FaultStops /\ ErrStic
 
 View == <<reqs, queue, sent, sendpc, wbuf, c2s, pend, sbuf, app, s2c, rbuf, srvClosed, recvpc, mtx, done, resp,
           cbset, cbinv, cbret, err, stopped, stoppc, stopby, quit, connClosed, timerSet, ntimer, nfault,
-          ncalls, th, gated, ustopped, panicked, h>>
+          ncalls, th, gated, cbq, ustopped, panicked, h>>
 =============================================================================
